@@ -279,7 +279,7 @@ PROPS = {
                 "metadata sets (none; Content-Type + x-amz-meta; Content-Type + Content-Encoding + Content-Disposition + a 900-byte "
                 "value), uploaded by PUT (with and without Content-MD5), browser-form POST, copy, and Backend.PutObject; each followed "
                 "by GET and HEAD over HTTP (and through the Backend API) and a listing of the key; later operations on other keys, "
-                "then the same reads again. distinct_nontrivial = distinct (backend, integrity, upload path, size, key). Copies are made inside the bucket and, every third one, from a second bucket that holds an object of the destination's name (which must stay what it is). On the key-value backends the twin-key groups include keys that differ by leading or doubled slashes (lead, /lead, //lead). Two keys carry white space at their ends (blank-padded; a tab and a trailing blank). heldRead: an object opened through Backend.GetObject is read after its key was overwritten; the bytes are those its size and hash describe. apiPutReusedBuffer: Go-API uploads from a buffer the caller refills afterwards. On every second store the twin-key groups are written and read virtual-host style (host-bucket / host-bucket-base server on the same backend). recycledBucketPut: an upload whose body is held back while its empty bucket is deleted and created again; if acknowledged it is readable. The same bytes uploaded again to a key under other metadata (PUT, form POST, aws-chunked, Go API, copy onto itself; also an empty body); keys whose segments take 230 and 240 bytes in 115 and 80 characters. apiPutReusedMap: one metadata map handed to Backend.PutObject for two uploads and changed afterwards; the stored objects keep what each call was given. heldRead makes the overwrite plus eight 40 KB uploads and their deletes while its read is open. Eleven Content-Type spellings that are valid but not canonical (and upper-case Content-Disposition / Content-Encoding values) uploaded by PUT, form POST and Go API. Two metadata sets carry a form Content-Type (application/x-www-form-urlencoded, multipart/form-data). Every history ends with keys uploaded one and two levels below (and above) an acknowledged object.",
+                "then the same reads again. distinct_nontrivial = distinct (backend, integrity, upload path, size, key). Copies are made inside the bucket and, every third one, from a second bucket that holds an object of the destination's name (which must stay what it is). On the key-value backends the twin-key groups include keys that differ by leading or doubled slashes (lead, /lead, //lead). Two keys carry white space at their ends (blank-padded; a tab and a trailing blank). heldRead: an object opened through Backend.GetObject is read after its key was overwritten; the bytes are those its size and hash describe. apiPutReusedBuffer: Go-API uploads from a buffer the caller refills afterwards. On every second store the twin-key groups are written and read virtual-host style (host-bucket / host-bucket-base server on the same backend). recycledBucketPut: an upload whose body is held back while its empty bucket is deleted and created again; if acknowledged it is readable. The same bytes uploaded again to a key under other metadata (PUT, form POST, aws-chunked, Go API, copy onto itself; also an empty body); keys whose segments take 230 and 240 bytes in 115 and 80 characters. apiPutReusedMap: one metadata map handed to Backend.PutObject for two uploads and changed afterwards; the stored objects keep what each call was given. heldRead makes the overwrite plus eight 40 KB uploads and their deletes while its read is open. Eleven Content-Type spellings that are valid but not canonical (and upper-case Content-Disposition / Content-Encoding values) uploaded by PUT, form POST and Go API. Two metadata sets carry a form Content-Type (application/x-www-form-urlencoded, multipart/form-data). Every history ends with keys uploaded one and two levels below (and above) an acknowledged object. One metadata set holds values that are not UTF-8 (Latin-1 bytes, 0xff), uploaded by PUT, the Go API and copy.",
         "explanation": "Theorems: read-your-writes with the exact body and the metadata sent (C01_roundtrip), HEAD/GET agreement, "
                        "stability under operations on other keys (frame), listing entry = current version. Tie: the responses of the Go "
                        "handlers and of the Go Backend API vs the extracted model, with length and MD5 recomputed by the checker.",
